@@ -150,7 +150,7 @@ class C03(Check):
         # capacity changes / unblocking / budget adjustments made BETWEEN two consecutive runs must wake parts up too
         specs += [S.with_splits(x) for x in (S.RES(K), S.BLOCK(K), S.BUDGET(K))]
         # sinks with stretched / per-part cycle times; devices created while running with a blocked device as upstream
-        specs += [S.LOOP(K), S.LOOP(K, delay=0), S.RES_NOISE(K)]
+        specs += [S.LOOP(K), S.LOOP(K, delay=0), S.RES_NOISE(K), S.RES_TWICE(K)]
         specs += [S.SINKOFF(K), S.LATE(K, horizon=4, name='c03', ops=[['create', 3, 4], ['create', 10, 11], ['create', 12, 13, 14],
                                                                      ['block', 'M1', True]])]
         jobs = _line_jobs(specs, ['wakeup'], tier)
@@ -255,7 +255,7 @@ class C11(Check):
         specs = [S.RES(K), S.RES(K, r=2, q=0), S.RES(K + 1, horizon=4), S.RES_SER(K), S.RES_SER(K + 1, horizon=4),
                  S.RES2(K, horizon=5 if K == 1 else 4), S.RES3L(K),
                  S.GRP2(K, horizon=4, resources=True), S.GRPPAR(K, horizon=4, resources=True), S.RES_MAINT(K + 1),
-                 S.RES_WINDOW(K + 1), S.RES_FRAC(K), S.FLOATNOISE(K), S.RES_RETRY(K)]
+                 S.RES_WINDOW(K + 1), S.RES_FRAC(K), S.FLOATNOISE(K), S.RES_RETRY(K), S.RES_TWICE(K)]
         return _line_jobs(specs, ['resources'], tier)
 
 
